@@ -211,6 +211,7 @@ func (e *Engine) checkFrame(fr *Frame, con *Contract, o Outcome, old *State, key
 		all  bool
 	}
 	var mods []mod
+	mapMods := false
 	for _, m := range con.Modifies {
 		l, ok := octx.loc(m)
 		if !ok {
@@ -219,6 +220,11 @@ func (e *Engine) checkFrame(fr *Frame, con *Contract, o Outcome, old *State, key
 		switch {
 		case l.Ptr != nil:
 			mods = append(mods, mod{obj: l.Ptr.Obj, path: l.Ptr.Path})
+			// a map-typed location covers the map's content and the objects its values point to
+			if mv, isMap := e.loadPtr(old, *l.Ptr).(MapV); isMap && mv.Obj != nil {
+				mods = append(mods, mod{obj: mv.Obj, all: true})
+				mapMods = true
+			}
 		case l.All != nil && l.All.Obj != nil:
 			mods = append(mods, mod{obj: l.All.Obj, all: true})
 		}
@@ -238,6 +244,9 @@ func (e *Engine) checkFrame(fr *Frame, con *Contract, o Outcome, old *State, key
 			ov, ok = e.initHeap[ob]
 		}
 		if !ok || sameValue(nv, ov) {
+			continue
+		}
+		if mapMods && ob.Name == "mapval" {
 			continue
 		}
 		var rec func(nv, ov Value, path []interface{})
